@@ -50,7 +50,7 @@ inductive Out (α : Type) where
   | ret (v : α)
   | stop                          -- StopAsyncIteration
   | runtimeError                  -- Lock.acquire by the owner (shown unreachable)
-  deriving Repr
+  deriving DecidableEq, Repr
 
 inductive Ev where
   | next (i : Nat)
